@@ -125,6 +125,8 @@ type PipelineJob struct {
 	sched      *taskctl.Scheduler
 	taskRunner runner.Runner
 	startTimer *time.Timer
+	// cancelRequested is set if a cancel of the running job was requested (by CancelJob or a forced shutdown)
+	cancelRequested bool
 }
 
 func (j *PipelineJob) isRunning() bool {
@@ -500,8 +502,9 @@ func (r *PipelineRunner) JobCompleted(id uuid.UUID, err error) {
 	job.End = &now
 	job.LastError = err
 
-	// Set canceled flag on the job if a task was canceled through the context
-	if errors.Is(err, context.Canceled) {
+	// Set canceled flag on the job if a task was canceled through the context, or if a cancel was requested while the
+	// job was running (no task might have been running at that moment, so the scheduler does not return an error)
+	if errors.Is(err, context.Canceled) || job.cancelRequested {
 		job.Canceled = true
 	}
 
@@ -869,7 +872,7 @@ func (r *PipelineRunner) Shutdown(ctx context.Context) error {
 			r.mx.Lock()
 
 			for jobID := range r.jobsByID {
-				_ = r.cancelJobInternal(jobID)
+				_ = r.cancelJobByRequest(jobID)
 			}
 			r.mx.Unlock()
 
@@ -949,7 +952,17 @@ func (r *PipelineRunner) CancelJob(id uuid.UUID) error {
 	r.mx.Lock()
 	defer r.mx.Unlock()
 
-	return r.cancelJobInternal(id)
+	return r.cancelJobByRequest(id)
+}
+
+// cancelJobByRequest cancels a job on behalf of a caller (as opposed to the fail-fast handling of an errored task) and
+// records the request on a running job, such that it will be reported as canceled however its scheduler ends
+func (r *PipelineRunner) cancelJobByRequest(id uuid.UUID) error {
+	err := r.cancelJobInternal(id)
+	if job, ok := r.jobsByID[id]; ok && err == nil && job.isRunning() {
+		job.cancelRequested = true
+	}
+	return err
 }
 
 func (r *PipelineRunner) cancelJobInternal(id uuid.UUID) error {
